@@ -235,6 +235,13 @@ def lang_words_cases(draw, tier):
 
 @st.composite
 def lang_file_cases(draw, tier):
+    if draw(st.integers(0, 7)) == 0:
+        # answer and reference agree on all short words: the first difference is longer than either state count
+        ref, ans, m = draw(GA.late_difference_pair())
+        kind, rkind = draw(st.sampled_from([("dfa", "dfa"), ("dfa", "dfa"), ("nfa", "dfa"), ("dfa", "nfa"), ("nfa", "nfa")]))
+        as_kind = lambda k, s: s if k == "dfa" else dict(s, eps="ε", rep="dd_set")
+        n = m + draw(st.sampled_from([-1, 0, 0, 1, 2]))
+        return {"kind": kind, "ref_kind": rkind, "ref": as_kind(rkind, ref), "answer": as_kind(kind, ans), "answer_class": "late_difference", "n": max(n, 1)}
     kind = draw(st.sampled_from(["dfa", "nfa", "cfg", "regexp", "pda", "tm"]))
     rkind = kind if draw(st.integers(0, 2)) else draw(st.sampled_from(["dfa", "nfa", "regexp", "cfg"]))
     ref = spec_of(draw, rkind)
@@ -505,6 +512,9 @@ def run_complement(case):
 
 @st.composite
 def complement_cases(draw, tier):
+    if draw(st.integers(0, 9)) == 0:
+        d1, other, m = draw(GA.late_difference_pair())
+        return {"dfa": d1, "answer": dict(other, F=[q for q in other["Q"] if q not in other["F"]]), "answer_class": "late_difference_%d" % m}
     d1 = draw(G.dfa_specs(max_states=4, min_sigma=1, max_sigma=2))
     key = dict(d1, F=[q for q in d1["Q"] if q not in d1["F"]])
     cls = draw(st.sampled_from(["key", "mutation", "mutation", "unchanged", "independent", "ill_formed"]))
@@ -538,6 +548,10 @@ def reverse_key(d1, eps="ε"):
 
 @st.composite
 def reverse_cases(draw, tier):
+    if draw(st.integers(0, 9)) == 0:
+        # languages that only count the a's are their own mirror image
+        d1, other, m = draw(GA.late_difference_pair())
+        return {"dfa": d1, "answer": dict(other, eps="ε"), "answer_class": "late_difference", "n": min(m + draw(st.sampled_from([-1, 0, 0, 1])), 8)}
     d1 = draw(G.dfa_specs(max_states=4, min_sigma=1, max_sigma=2))
     key = reverse_key(d1, draw(st.sampled_from(["ε", "_"])))
     cls = draw(st.sampled_from(["key", "mutation", "mutation", "not_reversed", "independent", "ill_formed"]))
@@ -584,6 +598,9 @@ def minimal_key(d1):
 
 @st.composite
 def minimal_cases(draw, tier):
+    if draw(st.integers(0, 9)) == 0:
+        d1, other, m = draw(GA.late_difference_pair())
+        return {"dfa": d1, "answer": other, "answer_class": "late_difference", "n": min(m + draw(st.sampled_from([-1, 0, 0, 1])), 8)}
     d1 = draw(st.one_of(G.inflated_dfa_specs(max_states=3, max_sigma=2), G.dfa_specs(max_states=4, min_sigma=1, max_sigma=2)))
     if not d1["S"]:
         d1 = draw(G.dfa_specs(max_states=3, min_sigma=1, max_sigma=2))
